@@ -165,7 +165,7 @@ impl Property for C17 {
         }
     }
     fn rule(&self) -> String {
-        format!("one run = one input (repo spec snippet, generated program, keyword-region / kept-directive polluter, library map; accepted and rejected) through one parser entry (raw sv/lib/pp parsers strict and incomplete, parse_sv_str, parse_lib_str), executed once per memo capacity in {{declared 1024, {:?} (0 = unbounded), two random}} - only capacities fixed for a whole call, each on a fresh thread. Oracle: accept/reject and the tree (not the error position) equal the declared-capacity result. Every execution has a step budget (40x the reference + 20000); exhausting it is counted, not judged. A divergence is shrunk and re-run with a flag-aware memo key (verification fork of nom-packrat keys additionally on the left-recursion flags in force): if it vanishes it is attributed to the listed finding '{}', if it persists it is a violation. distinct = hash(input, entry); non-trivial iff some capacity evicted and later missed on an evicted key", CAPS, KNOWN_ID)
+        format!("one run = one input (repo spec snippet, generated program, netlist, pragma / protected-envelope lines, keyword-region / kept-directive polluter, library map; accepted and rejected; optionally with state-carrying trivia injected at token boundaries, a non-ANSI header, near-valid punctuation edits, an earlier parse on the same thread) through one parser entry (raw sv/lib/pp parsers strict and incomplete, parse_sv_str, parse_lib_str), executed once per memo capacity in {{declared 1024, {:?} (0 = unbounded), four random; one run in six dense: ~60 capacities, four per octave up to 8192}} - only capacities fixed for a whole call, each in a fresh process. Oracle: accept/reject and the tree (not the error position) equal the declared-capacity result. Every execution has a step budget (40x the reference + 20000); exhausting it is counted, not judged. Every diverging capacity (up to 4 per run) is shrunk and discriminated: re-run with a flag-aware memo key (verification fork of nom-packrat keys additionally on the left-recursion flags in force) at that capacity and on a ladder x0.5..x16 around it - if it vanishes on every rung it is attributed to the listed finding '{}'; if it persists, the keyword-stack finding must be confirmed by one of its two routes (region push seen + keyword directives blanked out; leaked entries + keyword set frozen), still with the flag-aware key, else it is a violation. distinct = hash(input, entry); non-trivial iff some capacity evicted and later missed on an evicted key", CAPS, KNOWN_ID)
     }
     fn assumptions(&self) -> Vec<String> {
         vec![
